@@ -306,7 +306,16 @@ pub fn replay_one(b: &Value) -> Option<String> {
                     let idx = op["idx"].as_u64().unwrap() as usize;
                     let val = op["val"].as_i64().unwrap() as f64;
                     match name {
-                        "update" => { f.update_values(&[idx], &[val]); cur.nzval[idx] = val; }
+                        "update" => {
+                            // (every third update is written as ONE call listing every entry, in descending index order, with the
+                            //  values the matrix already has except for this one: the engine must honour the index list)
+                            cur.nzval[idx] = val;
+                            if (idx + val.abs() as usize) % 3 == 0 {
+                                let all: Vec<usize> = (0..cur.nzval.len()).rev().collect();
+                                let vals: Vec<f64> = all.iter().map(|&i| cur.nzval[i]).collect();
+                                f.update_values(&all, &vals);
+                            } else { f.update_values(&[idx], &[val]); }
+                        }
                         "scale" => { f.scale_values(&[idx], val); cur.nzval[idx] *= val; }
                         "offset" => {
                             let sg = op["sgn"].as_i64().unwrap() as i8;
